@@ -96,23 +96,33 @@ check("C06",
       "Lean 4 refinement proof (cursor simulates the format's assignment) + strict reference parser + differential correspondence + layout exploration with an independent writer",
       "DESIGN.md §9.3 C06")
 check("C07",
-      "Theorems (Lean): the Size field of the time and attribute properties equals the bytes that follow for every "
-      "definedness pattern; bit vectors have ceil(n/8) bytes; NUMBERs <= 9 bytes decodable by the spec decoder (C17). "
-      "Header.write is tied byte-for-byte to the model (hdr.w incl. partial vectors and zero-stream folders). Every "
-      "archive of generated write/append histories (every documented chain, +/-AES with non-ASCII password, raw/encoded/"
-      "encrypted header, dirs/empties/symlinks) is parsed by the Lean strict reader (counts, sizes, tiling) and decoded "
-      "with codec libraries + an independent 7zAES KDF; recovered members must equal what was written.",
-      "Lean 4 proofs of property-size exactness + byte-exact writer correspondence + independent strict reader (Lean) on explored histories",
-      "DESIGN.md §4 C07")
+      "Theorem (Lean, every member list): the FilesInfo section py7zr's writer emits - any number of members, names over "
+      "all Unicode scalars (BMP and astral), any pattern of empty-stream entries, times and attributes defined or "
+      "undefined in any pattern, any file offset (kDummy padding) - is accepted by the strict reader (a parser written "
+      "from the format document that checks every count, property size, bit-vector length, padding and external flag) "
+      "and decodes to exactly the names, flags, times and attribute words written (strict_reader_accepts_filesinfo, "
+      "composed from per-property steps: EmptyStream, Dummy, Names, MTime, Attributes, END); NUMBERs <= 9 bytes decodable "
+      "by the spec decoder (C17); counter-example theorem for the pinned property-size computation (F1, repaired). "
+      "Header.write is tied byte-for-byte to the writer model (hdr.w incl. partial vectors and zero-stream folders). "
+      "Every archive built through py7zr in the exploration (histories of 1..3 sessions, every documented chain, +/-7zAES, "
+      "raw/encoded/encrypted header) is parsed by the strict reader running as an executable and decoded with codec "
+      "libraries + an independent 7zAES key derivation; recovered members are compared with what was written. Partial: "
+      "the PackInfo/UnpackInfo/SubStreamsInfo sections and the signature header are covered by the executable strict "
+      "reader and hdr.w, not by a composition theorem.",
+      "Lean 4 proof (strict reader reads the written FilesInfo section, all inputs) + byte-for-byte correspondence of Header.write + independent reader exploration",
+      "DESIGN.md §9.3 C07")
 check("C08",
-      "Theorems (Lean): re-serialised partially defined vectors are read back unchanged (all lengths/patterns); "
-      "assignment of base members is unchanged by an appended folder (kernel-evaluated shape incl. stream-less session). "
-      "Decided by exploration: histories w a a a over every chain, empty / dir-only sessions, password, header modes, "
-      "bases = py7zr archives, 11 third-party fixtures and 12 reference-writer layouts; after every session the member "
-      "map is read by py7zr AND by the independent reader and compared with all sessions' members in order.",
-      "Lean 4 proofs on the re-serialisation core + differential correspondence + history exploration with two independent readers",
-      "DESIGN.md §4 C08")
-
+      "Theorems (Lean): for EVERY base archive (files, folders incl. stream-less ones, sizes, digests) and EVERY "
+      "appended material, the sub-stream cursor gives the members that were already there exactly the folder, offset, "
+      "size and digest it gave them before (append_keeps_assignment: prefix stability of the cursor); re-serialised "
+      "partially defined vectors are read back unchanged (all lengths/patterns). Header re-serialisation is tied to "
+      "archiveinfo.py by hdr.w/hdr.r on non-writer-like headers. Exploration: histories w a a a over every chain, empty "
+      "/ dir-only sessions, password, header modes, bases = py7zr archives, third-party fixtures and reference-writer "
+      "layouts (packpos>0, partial vectors, folder CRCs, ...); after every session the member map is read by py7zr AND "
+      "by the independent reader and compared with all sessions' members in order. Partial: position arithmetic of "
+      "the append on the file (where new data starts) is explored, not proved.",
+      "Lean 4 proofs (cursor prefix stability, vector re-serialisation) + differential correspondence + history exploration with two independent readers",
+      "DESIGN.md §9.3 C08")
 check("C01",
       "Theorems (Lean, unbounded): the 7zAES residue buffers feed the cipher the stream exactly once, in order, in whole "
       "blocks, zero-padded, for every chunking (writer) / every chunking into >=1-block pieces (reader); chunked decoding "
